@@ -201,6 +201,12 @@ def gen_case(rng, tier, index):
         members.insert(rng.randint(0, k - 1), rng.choice(INVALID + INVALID + INVALID_MORE + [ANY, ANY, ANY]))
         tip = _container(rng, members)
     case = {"ep": ep, "dev": dev, "tip": tip, "n": rng.choice([1, 1, 2, 3]), "vol": _vol(rng), "kind": kind}
+    if rng.random() < 0.3:
+        # the worklist is not fresh: an earlier record on the same object carries another explicit selection
+        case["pre"] = {"ep": rng.choice(["aspirate_well", "aspirate_well", "dispense_well"]),
+                       "tip": rng.choice(SYMS) if rng.random() < 0.6 else _container(rng, _rand_members(rng, rng.randint(1, 4)), allow_set=False)}
+    if kind == "any" and rng.random() < 0.5:
+        case["omit_tip"] = True  # Tip.Any is the default: the argument is left out altogether
     if isinstance(tip, (list, dict)) and ("__tuple__" in tip if isinstance(tip, dict) else True) and ep != "transfer" and rng.random() < 0.2:
         # `tip` is documented as an Iterable: a generator / iterator object is legal for entry points that
         # emit a single record (transfer would have to re-use it for every pair)
@@ -259,28 +265,39 @@ def _run_ad(ctx, case):
     if coll:
         ctx.feature("collection_length", len(tip))
     wl = _worklist(dev)
+    n_pre = 0
+    if case.get("pre"):
+        try:
+            getattr(wl, case["pre"]["ep"])("q", 1, 5.0, tip=dec(case["pre"]["tip"]))
+            ctx.count("worklist_with_earlier_selection")
+        except Exception:
+            ctx.count("preamble_refused")
+        n_pre = len(wl)
+    tkw = {} if case.get("omit_tip") else {"tip": tip_arg}
+    if case.get("omit_tip"):
+        ctx.count("tip_argument_omitted")
     exc = None
     try:
         if ep == "aspirate_well":
-            wl.aspirate_well("p", 3, vol, tip=tip_arg)
+            wl.aspirate_well("p", 3, vol, **tkw)
             want = ["A"]
         elif ep == "dispense_well":
-            wl.dispense_well("p", 3, vol, tip=tip_arg)
+            wl.dispense_well("p", 3, vol, **tkw)
             want = ["D"]
         elif ep == "aspirate":
-            wl.aspirate(_small("p", True), _WELLS[0] if n == 1 else _WELLS[:n], vol, tip=tip_arg)
+            wl.aspirate(_small("p", True), _WELLS[0] if n == 1 else _WELLS[:n], vol, **tkw)
             want = ["A"] * n
         elif ep == "dispense":
-            wl.dispense(_small("p", False), _WELLS[0] if n == 1 else _WELLS[:n], vol, tip=tip_arg)
+            wl.dispense(_small("p", False), _WELLS[0] if n == 1 else _WELLS[:n], vol, **tkw)
             want = ["D"] * n
         elif ep == "transfer":
-            wl.transfer(_small("p", True), _WELLS[:n], _small("q", False), list(reversed(_WELLS))[:n], vol, tip=tip_arg)
+            wl.transfer(_small("p", True), _WELLS[:n], _small("q", False), list(reversed(_WELLS))[:n], vol, **tkw)
             want = ["A", "D"] * n
         else:
             raise ValueError(f"unknown entry point {ep}")
     except Exception as e:  # observed
         exc = e
-    records = list(wl)
+    records = list(wl)[n_pre:]
     det = lambda: {"entry_point": ep, "device": dev, "tip": case["tip"], "expected_kind": kind,
                    "expected_mask": mask, "records": records, "raised": repr(exc)}
     if kind == "invalid":
